@@ -1,7 +1,7 @@
 SPECIFICATION Spec
 CONSTANTS
   NK = 2
-  MaxOps = 2
+  MaxOps = 3
   MaxLag = 1
   MaxResub = 1
   LiveLimit = 3
@@ -9,14 +9,14 @@ CONSTANTS
   Kinds = {"fresh"}
   Pages = {1, 2}
   SSizes = {1}
-  Filts = {"none"}
-  Ops = {"pub", "rem", "exp"}
-  MaxJumps = 0
-  Pres = {2}
-  N0s = {0}
+  Filts = {"none", "client", "server"}
+  Ops = {"pub", "rem", "exp", "clear", "refresh"}
+  MaxJumps = 1
+  Pres = {3}
+  N0s = {2}
   Contig = FALSE
   DropStale = FALSE
 VIEW View
-INVARIANTS TypeOK C22
-PROPERTIES C22R C16M
+INVARIANTS TypeOK C22Coded
+PROPERTIES C22RCoded C16M
 CHECK_DEADLOCK FALSE
